@@ -126,11 +126,25 @@ def run(ctx):
     m = Stream("multi-record")
     cases = []
     for _ in range(6000 if ctx.thorough else 800):
-        recs = codecio.no_framing([codecio.canonical_record(r, "latin-1") for _ in range(r.choice([1, 2, 3, 6]))])
+        recs = codecio.no_framing([codecio.canonical_record(r, "latin-1") for _ in range(r.choice([1, 2, 3, 6]))],
+                                  keep_etx=True)
+        if r.random() < 0.15:
+            # an ETX character inside a text (a note pasted from elsewhere): only the ETB position classifies a frame
+            recs[0] = list(recs[0]) + ["see\x03 note " + "x" * r.choice([0, 5, 20])]
         size = r.choice([8, 9, 10, 14, 15, 16, 20, 33, 64, 100, 247])
         cases.append((recs, size, r.randrange(0, 17)))
     run_cases(m, cases, ctx)
     streams.append(m)
+
+    # very many frames per message: a long record with the smallest sizes (thousands of frames)
+    vm = Stream("very-many-frames")
+    cases = []
+    for n_ in ([1500, 3000, 9000] if ctx.thorough else [1500, 3000]):
+        rec = [["R", "1", "".join(r.choice("abcXYZ019 .-") for _ in range(n_))]]
+        cases.append((rec, r.choice([8, 9]), r.randrange(0, 8)))
+    run_cases(vm, cases, ctx)
+    run_cases(vm, cases[:1], ctx, kind="ienc")
+    streams.append(vm)
 
     # limits beyond the 247 bytes of E1381 (LIS01-A2 allows much larger frames) with records of several hundred bytes
     b2 = Stream("beyond-247")
